@@ -108,6 +108,14 @@ def small_programs():  # noqa: ANN201
         blk["convert_cancel"] = True
         blk["catch"] = "exceptions"
         yield [blk, {"op": "gate", "label": "after.handled"}]
+    # the body ends with an exception (an ordinary one, a BaseException subclass of the application, a group) which the surrounding code
+    # handles; the exit waits for a task that is slow to clean up
+    for exit_kind in ("raise-exc", "raise-base", "raise-group", "raise-stopasync"):
+        uid = itertools.count(1)
+        blk = make_block("out", [], ["slow-cleanup", "blocked"], [], uid)
+        blk["exit"] = {"kind": exit_kind}
+        blk["catch"] = "all-but-cancel"
+        yield [blk, {"op": "gate", "label": "after.handled"}]
     # deterministic witnesses of known finding D38 / D38b: a child whose cleanup fails inside a nested scope, a blocked child outside
     uid = itertools.count(1)
     yield [make_block("out", [], ["blocked"], [make_block("in", [], ["cleanup-fails"], [], uid)], uid)]
